@@ -47,8 +47,8 @@ package html
 //@   requires ht != nil && tbl(ht.Table)
 //@   requires [writer-ok] !Wfailed
 //@   ensures [table-still-wellformed] tbl(ht.Table) @C09,C14
-//@   ensures [failing-writer-surfaces] Wfailed ==> err != nil @C15
-//@   ensures [template-stays-on-the-wrapper] err == nil ==> ht.template != nil @C16
+//@   ensures [failing-writer-surfaces] Wfailed ==> result != nil @C15
+//@   ensures [template-stays-on-the-wrapper] result == nil ==> ht.template != nil @C16
 //@   call Execute before assert [function-map-rebound-on-every-render] funcsGen > old(funcsGen) && tplBound[ht.template] == funcsGen @C14
 
 //@ func (*HTMLTable).Render
